@@ -185,6 +185,8 @@ def check(tier, seed):
     R = Runner('C02', tier, seed)
     try:
         R.run_all(witnesses(tier, seed), [Config(isa) for isa in ALL_ISAS], chunk=80)
+        # boolean right-hand sides into arithmetic destinations: also as C++14 (the library selects the code path with `if constexpr` only from C++17 on)
+        R.run_all([w for w in witnesses(tier, seed) if w.family == 'expr.boolrhs' and w.params['n'] == 4], [Config('sse2', std='gnu++14')], chunk=80)
         return finish('C02', tier, seed, R, 'proof',
                       rule='r op= <expression tree> over Tensor<T,n> operands a,b,c and a scalar s, all symbolic; the reference is the same tree applied to the p-th elements in a plain scalar loop compiled by the same clang (so each C++ scalar operator contributes the IR opcode clang gives it); every flat position p of r is compared EXACTly (hash-consed term equality after bit-preserving rewrites: same IEEE/integer function of the inputs, hence equal for all operand values incl. NaN/Inf/INT_MIN); trees containing division by a scalar are compared ALGEBRAICally (documented reciprocal multiply). Math functions must be the same libm callee on lane p. Trees: fixed core + seeded random trees of depth 3-4; sizes 1..17 (thorough 1..35) so that vector body, scalar tail and every residue are under one oracle; five assignment forms; boolean-valued comparisons and logical operators.',
                       trusted=['clang-14 front end and -O2 code generation', 'LLVM IR semantics as modelled by irflow', 'x86 lane table', 'reference loops emitted by gen/c02.py'],
